@@ -27,10 +27,11 @@ const (
 func (c CostModel) String() string { return "free-running" }
 
 type Opts struct {
-	StepCap int
-	Fine    bool
-	Trace   bool
-	NoKeys  bool
+	StepCap      int
+	Fine         bool
+	AfterRelease bool
+	Trace        bool
+	NoKeys       bool
 }
 
 type BlockedG struct {
